@@ -163,6 +163,32 @@ pub fn extras_only(got: &serde_json::Value, want: &serde_json::Value, allowed: &
     }
 }
 
+/// the observed value contains everything expected plus, possibly, resurrected members / keys / values
+/// (structural superset); presence and witness must be equal
+pub fn superset_only(got: &serde_json::Value, want: &serde_json::Value) -> bool {
+    use serde_json::Value as V;
+    match (got, want) {
+        (V::Array(g), V::Array(w)) => {
+            let mut rest: Vec<&V> = g.iter().collect();
+            for x in w {
+                match rest.iter().position(|y| *y == x) {
+                    Some(i) => {
+                        rest.remove(i);
+                    }
+                    None => return false,
+                }
+            }
+            true
+        }
+        (V::Object(g), V::Object(w)) => w.iter().all(|(k, wv)| g.get(k).map(|gv| superset_only(gv, wv)).unwrap_or(false)),
+        (a, b) => a == b,
+    }
+}
+
+fn resurrection_only(g: &serde_json::Value, m: &serde_json::Value) -> bool {
+    g["present"] == m["present"] && g["witness"] == m["witness"] && superset_only(&g["val"], &m["val"])
+}
+
 fn written_under(ds: &Store, k: u8) -> Vec<u16> {
     ds.leaves.iter().filter(|l| under(&l.path, k)).filter_map(|l| if let Payload::Val { v, .. } = &l.payload { Some(*v) } else { None }).collect()
 }
@@ -204,7 +230,13 @@ pub fn explain<S: Subject>(sim: &Sim<S>, know: Bits, lin: &Lineage, points: &[St
                     continue;
                 }
                 let tolerated = match c {
-                    Class::T1 | Class::T3 | Class::T4 => true,
+                    // resurrection classes: both sides may differ from the specification only by EXTRA
+                    // members / keys / values; presence and witness of the key must match
+                    Class::T1 | Class::T3 => match (got.get(p), want.get(p), pred.and_then(|m| m.get(p))) {
+                        (Some(g), Some(w), Some(m)) => resurrection_only(g, m) && resurrection_only(w, m),
+                        _ => false,
+                    },
+                    Class::T4 => true,
                     // both sides may differ from the specification only by extra written values
                     Class::T2 | Class::T2b | Class::T5 | Class::T6 => match (got.get(p), want.get(p), pred.and_then(|m| m.get(p))) {
                         (Some(g), Some(w), Some(m)) => {
